@@ -94,6 +94,7 @@ def norm_result(case, res):
         "transitions": 0,
         "traces": 0,
         "note": None,
+        "nt_keys": None,
     }
     out.update(res or {})
     if out["key"] is None:
@@ -256,7 +257,9 @@ def finish(mod, tier, seed, src, cases, results, t0, exhaustive=True):
             states += r["states"]
             transitions += r["transitions"]
             traces += r["traces"]
-            if r["nt"]:
+            if r.get("nt_keys") is not None:  # a case that bundles several items reports the non-trivial ones itself
+                nt_keys.update(r["nt_keys"])
+            elif r["nt"]:
                 nt_keys.add(r["key"])
             outcomes[r["outcome"]] = outcomes.get(r["outcome"], 0) + 1
         if r["status"] == "rejected":
